@@ -62,7 +62,7 @@ def make_chooser(seed, ctx):
         p[p < 0] = 0.0
         tot = p.sum()
         # forced outcomes stay where post-selection does not amplify rounding noise (oracles.SUPPORT)
-        supp = np.where(p > max(1e-12, 1e-6 * tot))[0]
+        supp = np.where(p > max(1e-12, float(ctx.get("min_branch") or 1e-6) * tot))[0]
         if len(supp) == 0:
             return 0
         if len(supp) == 1 or p.max() / tot > 1 - 1e-9:
@@ -200,7 +200,7 @@ def execute_run(
     seed = int(cfg.get("seed", 0))
     reset_library(contraction=cfg.get("contraction", True), seed=cfg.get("lib_seed", 1))
     set_logging(bool(cfg.get("debuglog")))
-    ctx = {"sid": None, "nondeg": 0, "forced": cfg.get("forced"), "follow": cfg.get("follow")}
+    ctx = {"sid": None, "nondeg": 0, "forced": cfg.get("forced"), "follow": cfg.get("follow"), "min_branch": cfg.get("min_branch")}
     seams.reset(mode=cfg.get("mode", "forced"), chooser=make_chooser(seed, ctx))
     world = World()
     world.op_specs = cfg.get("ops", {})
